@@ -15,7 +15,7 @@ LEVEL_NOTE = ("Model fidelity is checked, not proved (correspondence: all (len,k
               "absence of deadlock in nested regions, are properties of rayon (trusted; observed under pools of 1–16 threads with "
               "a time cap). Floating-point re-association error of parallel sums and the drift of re-derived 1-D endpoints are "
               "measured against the statement's tolerances (1e-12, 1e-14), not proved.")
-OPS = {"split1", "split2", "tree1", "tree2"}
+OPS = {"split1", "split2", "tree1", "tree2", "steps_lens", "steps2d_lens"}
 TOL = {"split1": ("ulp", 2), "tree1": ("ulp", 2)}
 DEFAULT_TOL = ("exact",)
 RULE = ("family par/split: single splits of both producers for every len ≤ 24 (quick) / 64 (thorough) × every k ∈ 0..len+1; all proper "
@@ -25,7 +25,10 @@ RULE = ("family par/split: single splits of both producers for every len ≤ 24 
         "Simpson integrate/integrate2d, counts_*, hom_rate and nested regions under rayon pools {1,2,4,8}×2 / {1,2,3,4,8,16}×5 reps. "
         "family par/sweep (both tiers): hom_rate, hom_rate_series (synthetic amplitude arrays), SPDC::hom_rate_series, hom_visibility, "
         "counts_*, efficiencies on grids n×n for n = 1..12 plus non-square and larger shapes, Simpson 1-D divs 128..256 and 2-D divs "
-        "4..24(64), each under EVERY pool size 1..16 against the 1-thread result at 1e-12")
+        "4..24(64), rayon adaptors (skip/take/rev/enumerate/zip/chain/interleave/step_by/chunks/with_min_len/with_max_len …) through both "
+        "producers on counts 0,1,2,… with ascending/descending/equal endpoints, every Integrator variant inside range evaluation and "
+        "count rates, exact-size contract after every pull — each under EVERY pool size 1..16 against the 1-thread result at 1e-12 / "
+        "bit-wise, and the 1-thread batch once more at the end (history independence)")
 RESIDUAL = ("(a) floating-point re-association error of parallel sums and rounding drift of re-derived 1-D sub-range endpoints: "
             "measured (≤ 1e-12 / ≤ 1e-14), exact-arithmetic invariance is proved; (b) deadlock freedom of nested regions is a "
             "property of rayon's work-stealing scheduler: observed under a time cap only; (c) which split trees rayon requests "
